@@ -7,6 +7,7 @@ import EaselModel.Containers.HeapHistory
 import EaselModel.Containers.RedBlackLemmas
 import EaselModel.Containers.RedBlackPtrLemmas
 import EaselModel.Containers.RedBlackPtrInsert
+import EaselModel.Containers.RedBlackPtrHistory
 import EaselModel.Containers.StackLemmas
 import EaselModel.Containers.StackHistory
 import EaselModel.Containers.StackThreadsLemmas
@@ -524,6 +525,126 @@ example : (insert (#[⟨5, .black, none, some 1, some 2⟩, ⟨3, .red, some 0, 
       ⟨3, .black, none, some 7, some 9⟩] : Store) (some 0) 3).map (fun r => (r.2, (r.1.toList.take 3).map (fun nd => (nd.key, nd.small, nd.large))))
     = some (none, [(5, some 1, some 2), (3, none, none), (8, none, none)]) := by decide
 end RBPtr
+
+
+/-! ### the pointer-level insert WITH `rebalance` refines the inductive-tree insert — every path, every history
+
+`ReprP st t p par`: pointer `p` is the root of a tree of shape `t` laid out in the store, `small`/`large` AND `parent`
+pointers (`par` = the root record's `parent`). `absTree st t` = its keys and colours. -/
+section RBPtrRefine
+open RedBlackPtr
+
+/-- ONE CALL, ALL CASES (duplicate, black parent, red parent → `rebalance`: recolouring with its recursion up the `parent`
+    pointers, the four rotations incl. the root / great-grandparent relinking): for ANY tree laid out in the store over
+    distinct records (no order or balance assumption) and any offered record outside it,
+    `esl_red_black_doublekey_insert(tree, node)`
+    * fails (`esl_fatal` / NULL dereference / endless loop) exactly when `Tree.insert` on the abstract tree answers `none`;
+    * for a key already present returns `NULL`, writes no record but the offered one, the abstract tree is unchanged;
+    * otherwise returns the root of a tree laid out — child and parent pointers — over exactly the old records plus the new
+      one (a permutation: none lost, none twice) whose keys and colours are those `Tree.insert` computes (to which
+      `rb_insert` applies: ordered, balanced, key added); no record outside the tree and the offered one is written. -/
+theorem rb_ptr_insert_refines (st : Store) (t : Shape) (root node : Nat) (nn : Node)
+    (hrep : ReprP st t (some root) none) (hnd : t.ids.Nodup) (hnode : node ∉ t.ids) (hr : rd st node = some nn) :
+    (RedBlack.Tree.insert (absTree st t) nn.key = none → insert st (some root) node = none) ∧
+    (∀ T', RedBlack.Tree.insert (absTree st t) nn.key = some (T', false) →
+      T' = absTree st t ∧ ∃ st', insert st (some root) node = some (st', none) ∧ (∀ j, j ≠ node → rd st' j = rd st j)) ∧
+    (∀ T', RedBlack.Tree.insert (absTree st t) nn.key = some (T', true) →
+      ∃ st' root' t', insert st (some root) node = some (st', some root') ∧ ReprP st' t' (some root') none ∧
+        absTree st' t' = T' ∧ t'.ids.Perm (node :: t.ids) ∧ (∀ j, j ∉ node :: t.ids → rd st' j = rd st j)) :=
+  insert_refines_insert hrep hnd hnode hr
+
+/-- `rebalance` itself (entered through `fixup`: what `insert` and the recolouring branch do with a freshly red record `n`):
+    for every path `fs` from `n` up to the root, every colouring and every store, it computes what the unwinding of
+    `Tree.ins` (`upPath` = one `Tree.up` per ancestor) answers — same failure set, same tree, same records -/
+theorem rb_ptr_rebalance_refines (fuel : Nat) (fs : List Frame) (st : Store) (s : Shape) (n : Nat) (par root : Ptr) (tree : Nat)
+    (nn : Node) (hf : fs.length ≤ 2 * fuel) (hfoc : ReprP st s (some n) par) (hctx : ReprCtx st fs (some n) par root)
+    (hroot : root = some tree) (hnd : (s.ids ++ pathIds fs).Nodup) (hn : rd st n = some nn) (hred : nn.color = .red) :
+    SimGoal fuel st tree n (upPath st fs (.check (absTree st s))) (s.ids ++ pathIds fs) :=
+  fixup_sim fuel fs st s n par root tree nn hf hfoc hctx hroot hnd hn hred
+
+/-- on a well-formed tree the pointer-level insert never fails, and the tree it lays out is again well-formed (ordered,
+    root black, no red-red, equal black heights) and holds exactly the old keys plus the new one -/
+theorem rb_ptr_insert_wf (st : Store) (t : Shape) (root node : Nat) (nn : Node)
+    (hrep : ReprP st t (some root) none) (hnd : t.ids.Nodup) (hnode : node ∉ t.ids) (hr : rd st node = some nn)
+    (hwf : RedBlack.Tree.WF (absTree st t)) :
+    (nn.key ∈ RedBlack.Tree.toList (absTree st t) → ∃ st', insert st (some root) node = some (st', none)) ∧
+    (nn.key ∉ RedBlack.Tree.toList (absTree st t) →
+      ∃ st' root' t', insert st (some root) node = some (st', some root') ∧ ReprP st' t' (some root') none ∧
+        t'.ids.Perm (node :: t.ids) ∧ RedBlack.Tree.WF (absTree st' t') ∧
+        ∀ x, x ∈ RedBlack.Tree.toList (absTree st' t') ↔ x = nn.key ∨ x ∈ RedBlack.Tree.toList (absTree st t)) := by
+  obtain ⟨T1, b, hins, hwf1, hb, _, hmem⟩ := RedBlack.Tree.insert_spec (absTree st t) nn.key hwf
+  obtain ⟨_, h2, h3⟩ := insert_refines_insert hrep hnd hnode hr
+  constructor
+  · intro hk
+    have : b = false := hb.mpr hk
+    subst this
+    obtain ⟨_, st', h, _⟩ := h2 T1 hins
+    exact ⟨st', h⟩
+  · intro hk
+    have : b = true := by cases b with
+      | false => exact absurd (hb.mp rfl) hk
+      | true => rfl
+    subst this
+    obtain ⟨st', root', t', k1, k2, k3, k4, _⟩ := h3 T1 hins
+    exact ⟨st', root', t', k1, k2, k4, k3 ▸ hwf1, k3 ▸ hmem⟩
+
+/-- EVERY HISTORY from the empty tree, on the pointers: offering any distinct fresh records (as `_Create` / the pool hand
+    them out: `parent == NULL`) in any order, with any keys (duplicates are refused and skipped), never fails; the final
+    store lays out — `small`, `large` and `parent` pointers — over distinct records taken from the offered ones exactly the
+    tree `Tree.insertAll` computes from the keys: ordered, balanced, holding every offered key; nothing else is written -/
+theorem rb_ptr_history (st : Store) (nodes : List Nat) (hnodes : nodes.Nodup)
+    (hread : ∀ n ∈ nodes, ∃ nd, rd st n = some nd ∧ nd.parent = none) :
+    ∃ st' tree' t', insertAllPtr st none nodes = some (st', tree') ∧ ReprP st' t' tree' none ∧ t'.ids.Nodup ∧
+      RedBlack.Tree.insertAll .nil (keysOf st nodes) = some (absTree st' t') ∧ RedBlack.Tree.WF (absTree st' t') ∧
+      (∀ x, x ∈ RedBlack.Tree.toList (absTree st' t') ↔ x ∈ keysOf st nodes) ∧
+      (∀ j ∈ t'.ids, j ∈ nodes) ∧ (∀ j, j ∉ nodes → rd st' j = rd st j) := by
+  obtain ⟨st', tree', t', h1, h2, h3, h4, h5, h6, h7⟩ :=
+    insertAllPtr_refines nodes st none .nil rfl List.nodup_nil RedBlack.Tree.wf_nil hnodes (fun _ _ h => by cases h) hread
+  obtain ⟨T, e1, _, e3⟩ := RedBlack.Tree.insertAll_spec (keysOf st nodes)
+  have h4' : RedBlack.Tree.insertAll .nil (keysOf st nodes) = some (absTree st' t') := h4
+  have : T = absTree st' t' := by rw [e1] at h4'; exact Option.some.inj h4'
+  refine ⟨st', tree', t', h1, h2, h3, h4, h5, this ▸ e3, fun j hj => ?_, fun j hj => h7 j (fun h => by cases h) hj⟩
+  rcases h6 j hj with h | h
+  · cases h
+  · exact h
+
+/-- … and the tree built by any such history converts to a doubly linked list that passes the library's own list test -/
+theorem rb_ptr_history_converts (st : Store) (nodes : List Nat) (hnodes : nodes.Nodup) (hne : nodes ≠ [])
+    (hread : ∀ n ∈ nodes, ∃ nd, rd st n = some nd ∧ nd.parent = none) :
+    ∃ st' root st'' head tail, insertAllPtr st none nodes = some (st', some root) ∧
+      convert st' (some root) = some (some (st'', some head, some tail)) ∧
+      linkedListTest st'' (some head) (some tail) = some .ok := by
+  obtain ⟨st', tree', t', h1, h2, h3, _, h5, h6, _, _⟩ := rb_ptr_history st nodes hnodes hread
+  cases nodes with
+  | nil => exact absurd rfl hne
+  | cons n ns =>
+    cases t' with
+    | nil =>
+      exfalso
+      have hx : ∃ x, x ∈ keysOf st (n :: ns) := by
+        simp only [keysOf, List.map_cons]; exact ⟨_, List.mem_cons_self⟩
+      obtain ⟨x, hx⟩ := hx
+      have := (h6 x).mpr hx
+      simp [absTree, RedBlack.Tree.toList] at this
+    | node a r b =>
+      have hr : tree' = some r := h2.1
+      subst hr
+      obtain ⟨st'', head, tail, c1, c2⟩ := convert_then_test h2.toRepr h3 h5.1
+      exact ⟨st', r, st'', head, tail, h1, c1, c2⟩
+
+-- non-vacuity: three fresh records with keys 1, 2, 3 offered in ascending order: the third insert finds a RED parent
+-- (record 1 under the black root 0), `rebalance` rotates (node large of parent, parent large of grandparent) and record 1
+-- becomes the root with children 0 and 2, parent pointers included
+example : (insertAllPtr (#[⟨1, .red, none, none, none⟩, ⟨2, .red, none, none, none⟩, ⟨3, .red, none, none, none⟩] : Store)
+      none [0, 1, 2]).map (fun r => (r.2, r.1.toList.map (fun nd => (nd.parent, nd.small, nd.large))))
+    = some (some 1, [(some 1, none, none), (none, some 0, some 2), (some 1, none, none)]) := by decide
+example : (insertAllPtr (#[⟨1, .red, none, none, none⟩, ⟨2, .red, none, none, none⟩, ⟨3, .red, none, none, none⟩] : Store)
+      none [0, 1, 2]).map (fun r => r.1.toList.map (fun nd => decide (nd.color = .red)))
+    = some [true, false, true] := by decide
+example : ReprP (#[⟨1, .red, some 1, none, none⟩, ⟨2, .black, none, some 0, some 2⟩, ⟨3, .red, some 1, none, none⟩] : Store)
+    (.node (.node .nil 0 .nil) 1 (.node .nil 2 .nil)) (some 1) none :=
+  ⟨rfl, _, rfl, rfl, ⟨rfl, _, rfl, rfl, rfl, rfl⟩, ⟨rfl, _, rfl, rfl, rfl, rfl⟩⟩
+end RBPtrRefine
 
 section RB2
 
